@@ -905,11 +905,14 @@ fn run_child(shim: &PathBuf, args: &[String], env: &Env) -> ChildOut {
     // the two clock environments also differ in everything else a process inherits: logging / thread-pool / time-zone
     // variables (values of equal length, so the stack layout stays the same), the working directory and the CPUs it
     // may run on (std::thread::available_parallelism follows the affinity mask)
-    // environment 1 runs on at most 3 CPUs (if taskset and >= 4 CPUs are there), environment 0 on all of them
+    // environment 1 runs on 3 CPUs, environment 0 on all of them (both through taskset, CPU lists of equal length, so
+    // that the two process images are laid out identically); without taskset or with < 4 CPUs: no affinity dimension
     let ncpu = std::thread::available_parallelism().map(|n| n.get()).unwrap_or(1);
-    let mut cmd = if env.off == 1 && ncpu >= 4 && std::path::Path::new("/usr/bin/taskset").exists() {
+    let mut cmd = if ncpu >= 4 && std::path::Path::new("/usr/bin/taskset").exists() {
+        let last = (ncpu - 1).to_string();
+        let cpus = if env.off == 1 { format!("0-{:0w$}", 2, w = last.len()) } else { format!("0-{last}") };
         let mut c = Proc::new("/usr/bin/taskset");
-        c.args(["-c", "0-2"]).arg(&exe);
+        c.args(["-c", &cpus]).arg(&exe);
         c
     } else {
         Proc::new(&exe)
